@@ -304,7 +304,7 @@ Definition wf_tbl (n : nat) (tbl : list (key * combo)) : Prop :=
   NoDup (map fst tbl) /\ Forall (wf_key n) (map fst tbl).
 
 (* :before / :after bodies only trace (they have no next method) *)
-Definition plain (b : body) : Prop := b_nmp b = false /\ b_calls b = [].
+Definition plain (b : body) : Prop := b_nmp b = false /\ b_fail b = false /\ b_calls b = [].
 Definition wf_op (n : nat) (o : op) : Prop :=
   match o with
   | OpDef q k b => wf_key n k /\ match q with QBefore | QAfter => plain b | _ => True end
@@ -445,9 +445,9 @@ Qed.
 Lemma run_calls_ext v h n1 n2 : (forall v', n1 v' = n2 v') ->
   forall calls last, run_calls v h n1 calls last = run_calls v h n2 calls last.
 Proof.
-  intros He. induction calls as [|f rest IH]; intros last; cbn [run_calls]; [reflexivity|].
-  destruct h; [|reflexivity]. rewrite He. destruct (n2 (xor_args v f)) as [tr r].
-  destruct (is_err r); [reflexivity|]. rewrite IH. reflexivity.
+  intros He. induction calls as [|[f c] rest IH]; intros last; cbn [run_calls]; [reflexivity|].
+  rewrite He. destruct (if h then n2 (xor_args v f) else ([], RNoNext)) as [tr r].
+  destruct (is_err r); [destruct (c && catchable r)|]; rewrite ?IH; reflexivity.
 Qed.
 Lemma run_body_ext ends b v h n1 n2 : (forall v', n1 v' = n2 v') ->
   run_body ends b v h n1 = run_body ends b v h n2.
@@ -627,7 +627,7 @@ Qed.
 (* ---------- laws of the specification ---------- *)
 
 (* body shapes: [once]: one call-next-method with the arguments received; [plain] is above *)
-Definition once (b : body) : Prop := b_nmp b = false /\ b_calls b = [[]].
+Definition once (b : body) : Prop := b_nmp b = false /\ b_fail b = false /\ b_calls b = [([], false)].
 
 Lemma xor_args_nil v : xor_args v [] = v.
 Proof. destruct v; reflexivity. Qed.
@@ -637,9 +637,9 @@ Lemma spec_arounds_all_once arounds inner v tr r :
   spec_arounds arounds inner v =
     (evs arounds v ++ tr ++ map (fun b => EvEnd (b_id b)) (rev arounds), r).
 Proof.
-  intros Ho Hi He. induction Ho as [|b ar [Hn Hc] _ IH]; cbn [spec_arounds evs map rev app].
+  intros Ho Hi He. induction Ho as [|b ar (Hn & Hf & Hc) _ IH]; cbn [spec_arounds evs map rev app].
   - rewrite app_nil_r. exact Hi.
-  - unfold run_body. rewrite Hc, Hn. cbn [run_calls]. rewrite xor_args_nil, IH, He. cbn [is_err app].
+  - unfold run_body. rewrite Hc, Hn, Hf. cbn [run_calls]. rewrite xor_args_nil, IH, He. cbn [is_err app].
     rewrite He. f_equal. cbn [app]. f_equal. unfold evs. rewrite map_app, <- !app_assoc. reflexivity.
 Qed.
 
@@ -652,33 +652,49 @@ Theorem effective_order cs p ps v :
      (evs (befores cs) v ++ [Ev (b_id p) v] ++ evs (rev (afters cs)) v) ++
      map (fun b => EvEnd (b_id b)) (rev (wraps cs)), RVal (b_id p)).
 Proof.
-  intros Hp [Hn Hc] Ho. unfold effective. rewrite Hp.
+  intros Hp (Hn & Hf & Hc) Ho. unfold effective. rewrite Hp.
   apply spec_arounds_all_once; [exact Ho| |reflexivity].
-  unfold spec_inner. cbn [spec_prims]. unfold run_body, prim_ends. rewrite Hc, Hn. cbn. reflexivity.
+  unfold spec_inner. cbn [spec_prims]. unfold run_body, prim_ends. rewrite Hc, Hn, Hf. cbn. reflexivity.
 Qed.
 
 (* (b) an :around method that does not call call-next-method: nothing else runs *)
 Theorem effective_around_declines cs a rest v :
-  prims cs <> [] -> wraps cs = a :: rest -> b_calls a = [] ->
+  prims cs <> [] -> wraps cs = a :: rest -> b_fail a = false -> b_calls a = [] ->
   effective cs v = (Ev (b_id a) v :: (if b_nmp a then [EvNmp true] else []) ++ [EvEnd (b_id a)], RVal (b_id a)).
 Proof.
-  intros Hp Hw Hc. unfold effective. destruct (prims cs); [congruence|]. rewrite Hw. cbn [spec_arounds].
-  unfold run_body. rewrite Hc. cbn. reflexivity.
+  intros Hp Hw Hf Hc. unfold effective. destruct (prims cs); [congruence|]. rewrite Hw. cbn [spec_arounds].
+  unfold run_body. rewrite Hc, Hf. cbn. reflexivity.
 Qed.
 
 (* (c) an :around method with two call-next-method forms, the second with changed arguments:
    the rest of the effective method runs twice, the second time with the changed arguments, and
    the value is that of the second run *)
-Theorem effective_around_twice cs a rest f v tr1 r1 tr2 r2 :
-  prims cs <> [] -> wraps cs = a :: rest -> b_nmp a = false -> b_calls a = [[]; f] ->
+Theorem effective_around_twice cs a rest f c1 c2 v tr1 r1 tr2 r2 :
+  prims cs <> [] -> wraps cs = a :: rest -> b_nmp a = false -> b_fail a = false -> b_calls a = [([], c1); (f, c2)] ->
   let inner := spec_inner (befores cs) (prims cs) (afters cs) in
   spec_arounds rest inner v = (tr1, r1) -> is_err r1 = false ->
   spec_arounds rest inner (xor_args v f) = (tr2, r2) -> is_err r2 = false ->
   effective cs v = (Ev (b_id a) v :: tr1 ++ tr2 ++ [EvEnd (b_id a)], r2).
 Proof.
-  intros Hp Hw Hn Hc inner H1 E1 H2 E2. unfold effective. destruct (prims cs); [congruence|]. rewrite Hw. cbn [spec_arounds].
-  unfold run_body. rewrite Hc, Hn. cbn [run_calls]. rewrite xor_args_nil. fold inner. rewrite H1, E1, H2, E2.
+  intros Hp Hw Hn Hf Hc inner H1 E1 H2 E2. unfold effective. destruct (prims cs); [congruence|]. rewrite Hw. cbn [spec_arounds].
+  unfold run_body. rewrite Hc, Hn, Hf. cbn [run_calls]. rewrite xor_args_nil. fold inner. rewrite H1, E1, H2, E2.
   cbn [app]. rewrite E2. rewrite app_nil_r, <- app_assoc. reflexivity.
+Qed.
+
+(* (c') ... and when the first call-next-method, wrapped in ignore-errors, is ended by an error
+   signalled further in, the second one walks THE SAME next methods again (the less specific
+   :around methods the failed attempt had entered included); the value is that of the second run *)
+Theorem effective_retry_after_error cs a rest f c2 v tr1 r1 tr2 r2 :
+  prims cs <> [] -> wraps cs = a :: rest -> b_nmp a = false -> b_fail a = false -> b_calls a = [([], true); (f, c2)] ->
+  let inner := spec_inner (befores cs) (prims cs) (afters cs) in
+  spec_arounds rest inner v = (tr1, r1) -> catchable r1 = true ->
+  spec_arounds rest inner (xor_args v f) = (tr2, r2) -> is_err r2 = false ->
+  effective cs v = (Ev (b_id a) v :: tr1 ++ tr2 ++ [EvEnd (b_id a)], r2).
+Proof.
+  intros Hp Hw Hn Hf Hc inner H1 E1 H2 E2. unfold effective. destruct (prims cs); [congruence|]. rewrite Hw. cbn [spec_arounds].
+  unfold run_body. rewrite Hc, Hn, Hf. cbn [run_calls]. rewrite xor_args_nil. fold inner. rewrite H1.
+  assert (Ee : is_err r1 = true) by (destruct r1; try discriminate; reflexivity). rewrite Ee, E1. cbn [andb].
+  rewrite H2, E2. cbn [app]. rewrite E2. rewrite app_nil_r, <- app_assoc. reflexivity.
 Qed.
 
 (* (d) call-next-method in a primary method runs the next most specific primary; in the least
@@ -688,15 +704,31 @@ Theorem effective_primary_chain cs p1 p2 ps v :
   effective cs v =
     (evs (befores cs) v ++ [Ev (b_id p1) v; Ev (b_id p2) v; EvEnd (b_id p1)] ++ evs (rev (afters cs)) v, RVal (b_id p2)).
 Proof.
-  intros Hw Hp [Hn1 Hc1] [Hn2 Hc2]. unfold effective. rewrite Hp, Hw. cbn [spec_arounds]. unfold spec_inner.
-  cbn [spec_prims]. unfold run_body, prim_ends. rewrite Hc1, Hn1, Hc2, Hn2. cbn. rewrite xor_args_nil. reflexivity.
+  intros Hw Hp (Hn1 & Hf1 & Hc1) (Hn2 & Hf2 & Hc2). unfold effective. rewrite Hp, Hw. cbn [spec_arounds]. unfold spec_inner.
+  cbn [spec_prims]. unfold run_body, prim_ends. rewrite Hc1, Hn1, Hf1, Hc2, Hn2, Hf2. cbn. rewrite xor_args_nil. reflexivity.
 Qed.
 Theorem effective_primary_no_next cs p f v :
-  wraps cs = [] -> prims cs = [p] -> b_calls p = [f] ->
+  wraps cs = [] -> prims cs = [p] -> b_fail p = false -> b_calls p = [(f, false)] ->
   effective cs v = (evs (befores cs) v ++ Ev (b_id p) v :: (if b_nmp p then [EvNmp false] else []), RNoNext).
 Proof.
-  intros Hw Hp Hc. unfold effective. rewrite Hp, Hw. cbn [spec_arounds]. unfold spec_inner.
-  cbn [spec_prims]. unfold run_body. rewrite Hc. cbn. rewrite app_nil_r. reflexivity.
+  intros Hw Hp Hf Hc. unfold effective. rewrite Hp, Hw. cbn [spec_arounds]. unfold spec_inner.
+  cbn [spec_prims]. unfold run_body. rewrite Hc, Hf. cbn. rewrite app_nil_r. reflexivity.
+Qed.
+(* (e) a body that signals an error: the condition unwinds through every running method (no
+   :after method, no end of an :around method) *)
+Theorem effective_primary_fails cs p ps v :
+  prims cs = p :: ps -> b_fail p = true -> Forall once (wraps cs) ->
+  effective cs v =
+    (evs (wraps cs) v ++ evs (befores cs) v ++ Ev (b_id p) v :: (if b_nmp p then [EvNmp (negb (is_nil ps))] else []),
+     RErr (b_id p)).
+Proof.
+  intros Hp Hf Ho. unfold effective. rewrite Hp.
+  assert (Hi : spec_inner (befores cs) (p :: ps) (afters cs) v =
+               (evs (befores cs) v ++ Ev (b_id p) v :: (if b_nmp p then [EvNmp (negb (is_nil ps))] else []), RErr (b_id p))).
+  { unfold spec_inner. cbn [spec_prims]. unfold run_body. rewrite Hf. reflexivity. }
+  revert Hi. generalize (spec_inner (befores cs) (p :: ps) (afters cs)). intros inner Hi.
+  induction Ho as [|b ar (Hn & Hfb & Hc) _ IH]; cbn [spec_arounds evs map app]; [exact Hi|].
+  unfold run_body. rewrite Hc, Hn, Hfb. cbn [run_calls]. rewrite xor_args_nil, IH. cbn [is_err andb]. reflexivity.
 Qed.
 
 (* ---------- the clause of the guard that is left: a refutation ---------- *)
@@ -704,8 +736,8 @@ Qed.
 Definition ct_num : ctable :=
   [("fixnum", ["fixnum"; "integer"; "rational"; "real"; "number"; "t"]);
    ("ratio", ["ratio"; "rational"; "real"; "number"; "t"])]%string.
-Definition B (n : N) := {| b_id := n; b_nmp := false; b_calls := [] |}.       (* plain *)
-Definition B1 (n : N) := {| b_id := n; b_nmp := false; b_calls := [[]] |}.    (* once *)
+Definition B (n : N) := {| b_id := n; b_nmp := false; b_fail := false; b_calls := [] |}.       (* plain *)
+Definition B1 (n : N) := {| b_id := n; b_nmp := false; b_fail := false; b_calls := [([], false)] |}.    (* once *)
 
 (* an applicable :around method and no applicable primary: slip runs the :around method (its
    own tests require that) and call-next-method signals no-next-method; the language signals an
@@ -739,13 +771,34 @@ Lemma repaired_cases :
   snd (run ct_num (new_aux 1) ops_next_in_primary) = spec_run ct_num [] ops_next_in_primary.
 Proof. vm_compute. repeat split; reflexivity. Qed.
 
+(* the walk of call-next-method is the same after an error: the primary on fixnum signals an
+   error; the :around on fixnum calls call-next-method in ignore-errors twice; both attempts enter
+   the :around on integer and the primary *)
+Definition ops_retry : list op :=
+  [OpDef QPrimary ["fixnum"] {| b_id := 1%N; b_nmp := false; b_fail := true; b_calls := [] |};
+   OpDef QAround ["integer"] (B1 2);
+   OpDef QAround ["fixnum"] {| b_id := 3%N; b_nmp := false; b_fail := false; b_calls := [([], true); ([], true)] |};
+   OpCall ["fixnum"] [false]]%string.
+Lemma retry_example :
+  wf_ops ct_num 1 ops_retry /\
+  snd (run ct_num (new_aux 1) ops_retry) =
+    [None; None; None;
+     Some ([Ev 3 [false]; Ev 2 [false]; Ev 1 [false]; Ev 2 [false]; Ev 1 [false]; EvEnd 3], RNil)]%N /\
+  snd (run ct_num (new_aux 1) ops_retry) = spec_run ct_num [] ops_retry.
+Proof.
+  split; [|split].
+  - repeat constructor; cbn; try discriminate; intuition discriminate.
+  - vm_compute. reflexivity.
+  - vm_compute. reflexivity.
+Qed.
+
 (* non-vacuity: a history inside the guard that exercises every qualifier, replacement, removal,
    a cached call, two :around methods, call-next-method twice with changed arguments,
    next-method-p and call-next-method in a primary *)
 Definition ops_example : list op :=
-  [OpDef QPrimary ["t"; "t"] (B 1); OpDef QPrimary ["integer"; "t"] {| b_id := 2%N; b_nmp := true; b_calls := [[]] |};
+  [OpDef QPrimary ["t"; "t"] (B 1); OpDef QPrimary ["integer"; "t"] {| b_id := 2%N; b_nmp := true; b_fail := false; b_calls := [([], false)] |};
    OpDef QBefore ["fixnum"; "rational"] (B 3);
-   OpDef QAfter ["t"; "ratio"] (B 4); OpDef QAround ["rational"; "t"] {| b_id := 5%N; b_nmp := true; b_calls := [[]; [true; false]] |};
+   OpDef QAfter ["t"; "ratio"] (B 4); OpDef QAround ["rational"; "t"] {| b_id := 5%N; b_nmp := true; b_fail := false; b_calls := [([], false); ([true; false], false)] |};
    OpDef QAround ["t"; "t"] (B1 7);
    OpCall ["fixnum"; "ratio"] [false; false]; OpCall ["fixnum"; "ratio"] [false; true];
    OpDef QPrimary ["fixnum"; "ratio"] (B 6); OpCall ["fixnum"; "ratio"] [false; false];
